@@ -396,6 +396,13 @@ def parse_mir(text, skipped=None):
             kw = hdr.split(' ', 1)[0]
             nm, ty = hdr[len(kw) + 1:-len(' = {')].rsplit(': ', 1) if ': ' in hdr else (hdr, '')
             ch = 'fn ' + nm + '() -> ' + ty + ' {\n' + ch.split('\n', 1)[1]
+        m1 = re.match(r'^(?:const|static) ([\w:<>]+): (.*?) = const (.*);\s*$', ch.split('\n', 1)[0])
+        if m1:
+            # a one-line constant: `const MAX: usize = const 20_usize;` -> a body that returns the literal
+            f = Fn(m1.group(1), [], m1.group(2), {0: m1.group(2)}, {})
+            f.blocks[0] = Block([Stmt(Place(0), Rvalue('use', (Operand('const', const=m1.group(3).strip()),)), ch)], Term('return', {}, 'return'))
+            fns.setdefault(m1.group(1), f)
+            continue
         if not ch.startswith('fn '):
             continue
         try:
@@ -471,6 +478,13 @@ if __name__ == '__main__':
     # parse function by function to count failures
     chunks = re.split(r'\n(?=fn )', txt)
     for ch in chunks:
+        m1 = re.match(r'^(?:const|static) ([\w:<>]+): (.*?) = const (.*);\s*$', ch.split('\n', 1)[0])
+        if m1:
+            # a one-line constant: `const MAX: usize = const 20_usize;` -> a body that returns the literal
+            f = Fn(m1.group(1), [], m1.group(2), {0: m1.group(2)}, {})
+            f.blocks[0] = Block([Stmt(Place(0), Rvalue('use', (Operand('const', const=m1.group(3).strip()),)), ch)], Term('return', {}, 'return'))
+            fns.setdefault(m1.group(1), f)
+            continue
         if not ch.startswith('fn '):
             continue
         try:
